@@ -503,6 +503,181 @@ func c12FaultProgram(r *rand.Rand, w c12Wrap, f c12Fault, nFill, pos, crlf int) 
 	return text, faultOff, faultLen
 }
 
+// ---- the call-depth limit as a runtime fault -------------------------------------------------
+//
+// The limit (4096 open frames) is checked wherever a frame is pushed: for a call of a user
+// function AND for the body of a match case. Which of the two is the push that exceeds it
+// depends on the shape of the recursion (how many match frames a level opens, one or several
+// functions) and on how many frames were open when the recursion started (a rule, one or
+// two wrapper functions, match cases at rule level). Every such error must be a positioned
+// runtime error: line / col / quoted line of the recursive call (its function name) or of
+// the `match` whose case body could not be entered. The generator writes the program over
+// many lines, remembers where every push site stands and finds the site of the 4097th push
+// by simulating the pushes.
+
+const c12DepthLimit = 4096
+
+// one recursion shape: lines of the functions with «k:…» around push site k, "~" where filler
+// lines (statements, comments, blank) may stand, "~#" where only comments may; steps(n) lists
+// the sites a level with argument n pushes, in order, the last one being the recursive call
+type c12DepthShape struct {
+	name  string
+	lines []string
+	steps func(n int) []int
+}
+
+var c12DepthShapes = []c12DepthShape{
+	{"match arm", []string{"function depth(n) {", "~", "  return «0:match (n)» {", "~#", "    0 => 0,", "~#", "    m => 1 + «1:depth(m - 1)»", "  }", "}"},
+		func(n int) []int { return []int{0, 1} }},
+	{"match arm, call on its own line", []string{"function depth(n) {", "  return «0:match (n)» {", "    0 => 0,", "    m =>", "~#", "      1 +", "      «1:depth(m - 1)»,", "  }", "}"},
+		func(n int) []int { return []int{0, 1} }},
+	{"match block arm", []string{"function depth(n) {", "  «0:match (n)» {", "    0 => { return 0 }", "    m => {", "~", "      return 1 + «1:depth(m - 1)»", "    }", "  }", "}"},
+		func(n int) []int { return []int{0, 1} }},
+	{"two nested matches per call", []string{"function depth(n) {", "  return «0:match (n)» {", "    0 => 0,", "~#", "    m => «1:match (m - 1)» {", "~#", "      k => 1 + «2:depth(k)»", "    }", "  }", "}"},
+		func(n int) []int { return []int{0, 1, 2} }},
+	{"three nested matches per call, block and expression arms", []string{"function depth(n) {", "  «0:match (n)» {", "    0 => { return 0 }", "    m => {", "      v = «1:match ([m, 1])» {", "        [a, b] => «2:match (a - b)» {", "~#", "          k => 1 + «3:depth(k)»", "        }", "      }", "      return v", "    }", "  }", "}"},
+		func(n int) []int { return []int{0, 1, 2, 3} }},
+	{"mutual: one function through a match arm, the other plain", []string{"function depth(n) {", "  return «0:match (n)» {", "    0 => 0,", "    m => 1 + «1:other(m - 1)»", "  }", "}", "~#", "function other(n) {", "  if (n == 0) return 0", "~", "  return 1 + «2:depth(n - 1)»", "}"},
+		func(n int) []int { return []int{0, 1, 2} }},
+	{"two arms chosen by parity", []string{"function depth(n) {", "  if (n == 0) return 0", "  return «0:match (n % 2)» {", "    0 => 1 + «1:depth(n - 1)»,  # even", "~#", "    r => 2 + «2:depth(n - 1)»   # odd", "  }", "}"},
+		func(n int) []int {
+			if n%2 == 0 {
+				return []int{0, 1}
+			}
+			return []int{0, 2}
+		}},
+	{"match only every third level", []string{"function depth(n) {", "  if (n == 0) return 0", "  if (n % 3 != 0) return 1 + «0:depth(n - 1)»", "~", "  return «1:match (n)» {", "    m => 1 + «2:depth(m - 1)»", "  }", "}"},
+		func(n int) []int {
+			if n%3 != 0 {
+				return []int{0}
+			}
+			return []int{1, 2}
+		}},
+	{"plain recursion", []string{"function depth(n) {", "  if (n == 0) return 0", "~", "  return 1 + «0:depth(n - 1)»", "}"},
+		func(n int) []int { return []int{0} }},
+	{"call in the match subject", []string{"function depth(n) {", "  return match (1 + «0:depth(n - 1)») {", "    v => v", "  }", "}"},
+		func(n int) []int { return []int{0} }},
+}
+
+// how the recursion is started: lines (ENTRY = the starting call), the frames open once
+// the first level's function frame is pushed, the document if a pattern rule starts it
+type c12DepthStart struct {
+	name   string
+	lines  []string
+	frames int
+	doc    string
+}
+
+var c12DepthStarts = []c12DepthStart{
+	{"directly from BEGIN", []string{"BEGIN {", "  print depth(10)", "~", "  print ENTRY", "  print 'not reached'", "}"}, 1, ""},
+	{"directly from END", []string{"{ seen++ }", "END {", "~", "  print depth(10)", "  x = ENTRY", "}"}, 1, "[1,2]"},
+	{"from a rule body", []string{"$.id == 2 {", "  print depth(10)", "~", "  print ENTRY", "}"}, 1, `[{"id": 1}, {"id": 2}]`},
+	{"from a rule pattern", []string{"BEGIN { print depth(10) }", "~", "ENTRY > 0 { print 'not reached' }"}, 1, `[{"id": 1}]`},
+	{"via one wrapper function", []string{"function start(n) {", "~", "  return depth(n)", "}", "~", "BEGIN {", "  print depth(10)", "  print start(10)", "  print START", "}"}, 2, ""},
+	{"via two wrapper functions", []string{"function start(n) {", "  return middle(n) + 1", "}", "function middle(n) {", "~", "  return depth(n)", "}", "BEGIN {", "  print start(10)", "~", "  print START", "}"}, 3, ""},
+	{"via three wrapper functions", []string{"function start(n) { return middle(n) }", "function middle(n) { return last(n) }", "~", "function last(n) { return depth(n) }", "BEGIN {", "  print start(10)", "  print START", "}"}, 4, ""},
+	{"from a match arm at rule level", []string{"BEGIN {", "  print depth(10)", "  x = match (1) {", "~#", "    q => ENTRY", "  }", "}"}, 2, ""},
+	{"from a match block in a match arm at rule level", []string{"BEGIN {", "  print depth(10)", "  x = match (1) {", "    q => match (q) { p => { print ENTRY } }", "  }", "}"}, 3, ""},
+	{"via a wrapper function with a match arm", []string{"function start(n) {", "  return match (n) {", "~#", "    v => depth(v)", "  }", "}", "{", "  print start(10)", "  print START", "}"}, 3, `[{"id": 1}]`},
+	{"via a wrapper called from a match arm", []string{"function start(n) { return depth(n) }", "BEGIN {", "  print start(10)", "~", "  match (2) { q => { print START } }", "}"}, 3, ""},
+}
+
+var c12DepthFill = []string{"", "  ", "# comment é", "\t# tab comment é 日本", "s = 'héé 日本'", "h1 = \"first half\nsecond half\"", "h2 = 'a\r\nb'", "t = \"a#b\"  # trailing", "# it's \"quoted", "h3 = \"l1\n\nl3\n\"", "u2 = \"\x80 stray\"", "#"}
+
+// c12DepthProgram renders one shape with one start; returns the text, the span of every
+// push site of the shape and the number of the site where the limit is exceeded.
+func c12DepthProgram(r *rand.Rand, sh c12DepthShape, st c12DepthStart, crlf int) (text string, spans [][2]int, hit int, arg int) {
+	arg = 20000 + r.Intn(80000)
+	var sb strings.Builder
+	eol := func() { sb.WriteString(c12Eol(r, crlf)) }
+	spans = make([][2]int, 8)
+	write := func(lines []string, top bool) {
+		for _, l := range lines {
+			if l == "~" || l == "~#" {
+				for k := r.Intn(3); k > 0; k-- {
+					f := pick(r, c12DepthFill)
+					if (top || l == "~#") && !strings.HasPrefix(f, "#") && strings.TrimSpace(f) != "" {
+						f = "# " + strings.ReplaceAll(strings.ReplaceAll(f, "\n", " "), "\r", " ") // no statements between top-level items or between the cases of a match
+					}
+					sb.WriteString("  " + f)
+					eol()
+				}
+				continue
+			}
+			if chance(r, 0.15) {
+				l = "\t" + l
+			}
+			l = strings.ReplaceAll(l, "ENTRY", fmt.Sprintf("depth(%d)", arg))
+			l = strings.ReplaceAll(l, "START", fmt.Sprintf("start(%d)", arg))
+			for {
+				a := strings.Index(l, "«")
+				if a < 0 {
+					break
+				}
+				b := strings.Index(l, "»")
+				k := int(l[a+len("«")] - '0')
+				inner := l[a+len("«")+2 : b]
+				spans[k] = [2]int{sb.Len() + a, len(inner)}
+				l = l[:a] + inner + l[b+len("»"):]
+			}
+			sb.WriteString(l)
+			eol()
+		}
+	}
+	if chance(r, 0.5) {
+		sb.WriteString(pick(r, []string{"# header é", "#!/usr/bin/env jqawk -f", "# 日本語 \x80", "", "\t"}))
+		eol()
+	}
+	shapeFirst := chance(r, 0.5)
+	if shapeFirst {
+		write(sh.lines, false)
+		write([]string{"~"}, true)
+	}
+	write(st.lines, false)
+	if !shapeFirst {
+		write([]string{"~"}, true)
+		write(sh.lines, false)
+	}
+	text = sb.String()
+	if chance(r, 0.3) {
+		text = strings.TrimRight(text, "\r\n")
+	}
+	// the 4097th push: st.frames are open when the first level starts
+	open, n := st.frames, arg
+	for {
+		for _, site := range sh.steps(n) {
+			open++
+			if open > c12DepthLimit {
+				return text, spans, site, arg
+			}
+		}
+		n--
+	}
+}
+
+func c12DepthFaults(r *rand.Rand, tier string, emit func(Case)) {
+	reps := tierN(tier, 1, 12)
+	for _, sh := range c12DepthShapes {
+		for _, st := range c12DepthStarts {
+			for rep := 0; rep < reps; rep++ {
+				text, spans, hit, arg := c12DepthProgram(r, sh, st, r.Intn(3))
+				var files []File
+				if st.doc != "" {
+					files = []File{{Name: "in.json", Data: []byte(st.doc)}}
+				}
+				kind := "the call of a function"
+				if strings.HasPrefix(text[spans[hit][0]:], "match") {
+					kind = "the body of a match case"
+				}
+				emit(Case{Req: RunReq(text, nil, files, false), Fields: []string{"class", "line", "col", "src", "out"},
+					Meta: metaProg(text, "fault", "call depth limit exceeded entering "+kind, "form", sh.name+", started "+st.name, "fault offset", fmt.Sprint(spans[hit][0]), "argument", fmt.Sprint(arg),
+						"row", "depth limit: "+sh.name, "col", st.name),
+					Oracle: c12At(text, "runtime", spans[hit][0], spans[hit][1]), NonTrivial: c12ErrNT})
+			}
+		}
+	}
+}
+
 // ---- positions as the binary prints them ------------------------------------------------------
 
 var c12DiagRe = regexp.MustCompile(`^(syntax|runtime) error on line (\d+): `)
@@ -555,8 +730,14 @@ func c12ThroughBinary(r *rand.Rand, tier string, emit func(Case)) {
 		var text, class, what string
 		var off, ln int
 		exact := true
-		switch i % 4 {
-		case 0, 1:
+		switch {
+		case i%16 == 5:
+			// the call-depth limit, exceeded by a function frame or by a match frame
+			sh, st := pick(r, c12DepthShapes), pick(r, c12DepthStarts)
+			dtext, spans, hit, _ := c12DepthProgram(r, sh, st, r.Intn(3))
+			text, off, ln = dtext, spans[hit][0], spans[hit][1]
+			class, what = "runtime", "call depth limit exceeded: "+sh.name+", started "+st.name
+		case i%4 < 2:
 			// a runtime fault of every kind in every form
 			w, f := pick(r, c12Wraps), pick(r, c12Faults)
 			for f.stmt && !(w.pre == "y = 2; " && w.post == "") {
@@ -1150,11 +1331,12 @@ func init() {
 	})
 	register(Family{
 		Name: "runtime-fault-position", Prop: "C12",
-		Rule: "every runtime fault kind (division by zero, call of a non-function, bad regex, compare of containers, unknown $name, bad printf arguments, bad string escape, ...) x every expression / statement form around it (operands, arguments, literals, conditions, loop headers, match, function bodies, rule patterns and bodies) placed on each line of multi-line programs with blank lines, comments (also containing quotes), CRLF, tabs, non-ASCII bytes, string and regex literals with raw line breaks, form feeds, U+2028 and long lines before the fault, also on the same line right after / before a multi-line literal and inside one (bad escape on its second line); oracle: runtime error, src = that line of the text, line = the fault's line, col inside the faulty construct",
+		Rule: "every runtime fault kind (division by zero, call of a non-function, bad regex, compare of containers, unknown $name, bad printf arguments, bad string escape, ...) x every expression / statement form around it (operands, arguments, literals, conditions, loop headers, match, function bodies, rule patterns and bodies) placed on each line of multi-line programs with blank lines, comments (also containing quotes), CRLF, tabs, non-ASCII bytes, string and regex literals with raw line breaks, form feeds, U+2028 and long lines before the fault, also on the same line right after / before a multi-line literal and inside one (bad escape on its second line); the call-depth limit as a fault: 10 recursion shapes (through a match arm / block arm, 2 and 3 nested matches per call, mutual, arms chosen by parity, a match every third level, plain, call in the subject) x 11 ways of starting it (BEGIN, END, rule body, rule pattern, 1 / 2 / 3 wrapper functions, match arms at rule level, wrapper with a match arm, wrapper called from a match arm) so that both a function frame and a match frame are the push that exceeds the limit, in every residue; the site of the 4097th push is found by simulating the pushes; oracle: runtime error, src = that line of the text, line = the fault's line, col inside the faulty construct (for the depth limit: inside the recursive call or the `match (…)` whose case body could not be entered)",
 		Gen: func(r *rand.Rand, tier string, emit func(Case)) {
 			files := []File{{Name: "in.json", Data: []byte(`[{"id": 1}, {"id": 2}]`)}}
 			reps := tierN(tier, 1, 6)
 			c12LongLines("runtime", emit)
+			c12DepthFaults(r, tier, emit)
 			for _, w := range c12Wraps {
 				for _, f := range c12Faults {
 					if f.stmt && !(w.pre == "y = 2; " && w.post == "") {
@@ -1178,7 +1360,7 @@ func init() {
 	})
 	register(Family{
 		Name: "positions-through-binary", Prop: "C12",
-		Rule: "the REAL BINARY's diagnostic (cli.go printError: the quoted source line, the caret line, 'syntax|runtime error on line N') parsed back into line / column / source line: programs with a runtime fault (every kind x every form, multi-line, the C12 fillers), an unexpected '=>', an illegal character, an unterminated string at a known offset, or cut off at a token boundary, preceded by blank lines / blanks / tabs / CR LF / comment lines / a #! line and followed by blank lines, blanks, comments; each given as the program argument and in a -f file. Oracle on the binary alone: line / col / quoted line are those of the fault in the text AS GIVEN (c12At); Group: equal to the library's line, col, src, class and stdout for the same text (the library run is compared with the model); the binary's exit / stdout / stderr-present are compared with the model's cli answer",
+		Rule: "the REAL BINARY's diagnostic (cli.go printError: the quoted source line, the caret line, 'syntax|runtime error on line N') parsed back into line / column / source line: programs with a runtime fault (every kind x every form, multi-line, the C12 fillers; one in 16: the call-depth limit exceeded by a function frame or a match frame, every recursion shape x start), an unexpected '=>', an illegal character, an unterminated string at a known offset, or cut off at a token boundary, preceded by blank lines / blanks / tabs / CR LF / comment lines / a #! line and followed by blank lines, blanks, comments; each given as the program argument and in a -f file. Oracle on the binary alone: line / col / quoted line are those of the fault in the text AS GIVEN (c12At); Group: equal to the library's line, col, src, class and stdout for the same text (the library run is compared with the model); the binary's exit / stdout / stderr-present are compared with the model's cli answer",
 		Gen:  c12ThroughBinary,
 	})
 }
